@@ -126,13 +126,17 @@ type decodeRec struct {
 type hSend struct {
 	seq   uint64
 	msgNo string
-	enc   []byte
+	enc   []byte // the frame re-encoded when the handler received it
 	batch int
+	ref   frame.Frame // the frame object itself, kept like a handler that retains it
+	ver   uint8
 }
 
 type hOther struct {
 	typ frame.FrameType
 	enc []byte
+	ref frame.Frame
+	ver uint8
 }
 
 type issueRec struct {
